@@ -564,3 +564,81 @@ class Align(Contract):
             yield "output-axis-is-empty", S.n(result[0].axes[0].values) == 0
         else:
             yield "returns-the-inputs-themselves", all(result[t] is env["arrays"][t] for t in range(len(result)))
+
+
+class ReindexLike(Contract):
+    """a.reindex_like(other) for `other` a DimArray or an Axes object: along every dimension a shares with other the result
+    carries other's labels; the cell at every label coordinate is a's cell at that coordinate where a has every one of those
+    labels and NaN otherwise; dimensions other lacks are untouched; metadata kept; a is untouched.  Proved against
+    reindex_axis' contract (the real loop over the axes runs).  [C07]"""
+    target = "dimarray.core.align:reindex_like"
+    props = ("C07", "C15")
+    uses = (stub_of(ReindexAxis),)
+
+    CONFIGS = {"x0|x0": (["x0"], ["x0"]), "x0x1|x0": (["x0", "x1"], ["x0"]), "x0x1|x1x0": (["x0", "x1"], ["x1", "x0"]), "x0x1|x1z": (["x0", "x1"], ["x1", "z"])}
+
+    def cases(self, tier):
+        for cfg in self.CONFIGS:
+            for form in ("dimarray", "axes"):
+                yield {"name": "%s-%s" % (cfg, form), "cfg": cfg, "form": form}
+
+    def bound_lengths(self, case):
+        da_, do_ = self.CONFIGS[case["cfg"]]
+        return ["a.%s.n" % d for d in da_] + ["o.%s.n" % d for d in do_]
+
+    def setup(self, S, case):
+        kinds = {"x0": "f", "x1": "O", "z": "f"}
+        da_, do_ = self.CONFIGS[case["cfg"]]
+        la, axes = {}, []
+        for d in da_:
+            L = S.array1d("a.%s" % d, kinds[d])
+            assume_order(S, L, "unique")
+            la[d] = L
+            axes.append(S.da.Axis(L, d))
+        data = S.arraynd("a.data", "f", tuple(S.n(la[d]) for d in da_))
+        arr = S.da.DimArray(data, axes=axes)
+        arr.attrs.update({"units": "K"})
+        lo, oaxes = {}, []
+        for d in do_:
+            L = S.array1d("o.%s" % d, kinds[d])
+            lo[d] = L
+            oaxes.append(S.da.Axis(L, d))
+        other = S.da.Axes(oaxes)
+        if case["form"] == "dimarray":
+            other = S.da.DimArray(S.arraynd("o.data", "f", tuple(S.n(lo[d]) for d in do_)), axes=oaxes)
+        return {"arr": arr, "la": la, "lo": lo, "data": data, "old": S.snapshot(data), "other": other, "da": da_, "do": do_, "axes0": list(arr.axes)}
+
+    def call(self, fn, env):
+        return env["arr"].reindex_like(env["other"])
+
+    def raises(self, S, case, env):
+        return {IndexError: False}
+
+    def post(self, S, case, env, result):
+        da_, do_, la, lo = env["da"], env["do"], env["la"], env["lo"]
+        yield "is-dimarray-with-the-same-dims", S.is_dimarray(result) and tuple(result.dims) == tuple(da_)
+        R = {}
+        for i, d in enumerate(da_):
+            Lr = result.axes[i].values
+            want = lo[d] if d in do_ else la[d]
+            R[d] = Lr
+            yield "%s:%s" % (d, "carries-the-others-labels" if d in do_ else "untouched"), S.land(S.n(Lr) == S.n(want), S.forall(0, S.n(want), lambda k, Lr=Lr, want=want: S.implies(
+                k < S.n(Lr), lambda: S.at(Lr, k) == S.at(want, k))))
+        shape = [S.n(R[d]) for d in da_]
+        rv, old = result.values, env["old"]
+
+        def present(*k):
+            def inner(*p):
+                match = S.land(*[S.at(la[d], p[i]) == S.at(R[d], k[i]) for i, d in enumerate(da_)])
+                return S.implies(match, lambda: S.same(S.at(rv, *k), S.at(old, *p)))
+            return S.forall_nd([S.n(la[d]) for d in da_], inner)
+        yield "cells-stay-at-their-label-coordinates", S.forall_nd(shape, present)
+        yield "nan-where-a-label-is-missing", S.forall_nd(shape, lambda *k: S.implies(
+            S.lor(*[absent(S, la[d], S.at(R[d], k[i])) for i, d in enumerate(da_)]), lambda: S.isnan(S.at(rv, *k))))
+        yield "metadata-kept", dict(result.attrs) == {"units": "K"}
+        arr = env["arr"]
+        yield "operand-untouched", S.land(arr.values is env["data"], all(u is v for u, v in zip(arr.axes, env["axes0"])), dict(arr.attrs) == {"units": "K"},
+                                          S.forall_nd([S.n(la[d]) for d in da_], lambda *p: S.same(S.at(env["data"], *p), S.at(old, *p))))
+
+    def canaries(self, S, case, env, result):
+        yield "result-is-empty", S.shape(result.values)[0] == 0
